@@ -67,6 +67,10 @@ def spans(fields, total):
     return out
 
 
+# both firmwares: APDU buffer of 85 bytes - 3 (CLA, CMD, OP) - 2 (status word) - 1 (more flag)
+FW_PAGESIZE = 79
+
+
 def pagesize_for(total, pages, rng):
     """A page size that cuts `total` bytes into exactly `pages` pages (seeded member of the range)."""
     if pages <= 1:
@@ -75,6 +79,8 @@ def pagesize_for(total, pages, rng):
     hi = -(-total // (pages - 1)) - 1            # largest size still needing `pages` pages
     hi = min(hi, total - 1)
     assert lo <= hi, (total, pages, lo, hi)
+    if lo <= FW_PAGESIZE <= hi and rng.random() < 0.5:
+        return FW_PAGESIZE
     return rng.choice((lo, hi, rng.randint(lo, hi)))
 
 
@@ -333,6 +339,59 @@ def sign_shaped(curve, d, message, shape, rng, low_s_only=False, limit=400000):
             continue
         return r, cands[0], tries
     raise AssertionError("no signature of shape %s after %d tries" % (shape, tries))
+
+
+COMPS = ("h32", "l32", "b31l", "b31h", "b30")
+# the quote signature (the one the enclave also hands out DER-encoded, see fw_der_encode_signature):
+# every class of r with every class of s
+SHAPES_QUOTE = tuple("%s/%s" % (a, b) for a in COMPS for b in COMPS)
+
+
+def nonce_for(curve, rc, rng):
+    """A nonce k whose r = x(kG) mod n has class rc (tabulated for b30); returns (k, r)."""
+    n = SECP_N if curve == "secp256k1" else P256_N
+    while True:
+        k = B30_NONCES[curve][rng.randrange(len(B30_NONCES[curve]))] if rc == "b30" else rng.randrange(1, n)
+        r = _point_x(curve, k) % n
+        if r and (rc == "any" or comp_class(r) == rc):
+            return k, r
+
+
+def sign_grinding_message(curve, d, make_message, shape, rng, limit=3000000):
+    """A signature of shape `shape` by d over a message with a FREE field: the nonce is fixed first
+    (it decides r), then make_message(rng) is re-drawn until s (or n - s) has its class - two leading
+    zero bytes of s cost 65 536 hashes, not 65 536 point multiplications.
+    Returns (message, r, s)."""
+    n = SECP_N if curve == "secp256k1" else P256_N
+    rc, sc = shape.split("/")
+    k, r = nonce_for(curve, rc, rng)
+    kinv, rd = pow(k, -1, n), r * d % n
+    for _ in range(limit):
+        msg = make_message(rng)
+        z = int.from_bytes(hashlib.sha256(msg).digest(), "big")
+        s0 = (z + rd) * kinv % n
+        for c in (s0, n - s0):
+            if c and (sc == "any" or comp_class(c) == sc):
+                return msg, r, c
+    raise AssertionError("no message gives a signature of shape %s" % shape)
+
+
+def fw_der_encode_uint(src):
+    """Port of der_encode_uint() of firmware/src/hal/sgx/src/trusted/der_utils.c, quirk included: the
+    0x00 sign byte is decided from the FIRST byte of the 32-byte field, before the leading zero bytes
+    are trimmed - so 00 8x ... comes out as a 31-byte integer WITHOUT sign byte."""
+    lz = bool(src[0] & 0x80)
+    trim = 0
+    while not src[trim] and trim < len(src) - 1:
+        trim += 1
+    body = (b"\x00" if lz else b"") + bytes(src[trim:])
+    return b"\x02" + bytes([len(body)]) + body
+
+
+def fw_der_encode_signature(rs):
+    """Port of der_encode_signature(): what the SGX enclave answers to ATTESTATION / OP_GET."""
+    r, s = fw_der_encode_uint(rs[:32]), fw_der_encode_uint(rs[32:64])
+    return b"\x30" + bytes([len(r) + len(s)]) + r + s
 
 
 def shape_of_der(sig):
@@ -804,7 +863,19 @@ class SgxMaterial:
         body["report_data"] = hashlib.sha256(custom).digest() + bytes(32)
         self.q_hdr, self.q_body = hdr, body
         self.quote = certv2.QUOTE_HEADER.pack(hdr) + RB.pack(body)
-        self.q_sig_der = self.att.sign_shape(self.quote, shape_for(case, "q_sig"), srng)
+        if shape_for(case, "q_sig") is None:
+            self.q_sig_der = self.att.sign(self.quote)
+        else:
+            # the 20 bytes of user data of the quote header are the free field
+            off = certv2.QUOTE_HEADER.offsets["user_data"]
+            base = self.quote
+
+            def with_user_data(r_):
+                return base[:off] + r_.randbytes(20) + base[off + 20:]
+            self.quote, r, s_ = sign_grinding_message("p256", self.att.d, with_user_data,
+                                                      shape_for(case, "q_sig"), srng)
+            hdr["user_data"] = self.quote[off:off + 20]
+            self.q_sig_der = der_ecdsa(r, s_)
         self.sig_shapes["q_sig"] = shape_of_der(self.q_sig_der)
         self.q_sig = certv2._der_sig_to_rs(self.q_sig_der)
         self.npem = case["npem"]
@@ -956,7 +1027,7 @@ class SgxDevice(AdminSimDevice):
             esize = len(envl) if ep == 1 else (-(-len(envl) // 2) if ep == 2 else self.case["e_pagesize"])
             self.att = {"env": envl, "layout": layout,
                         "mp": _Paged(msg, self.case["s_pagesize"]), "ep": _Paged(envl, esize)}
-            return 0x9000, H + m.q_sig_der
+            return 0x9000, H + fw_der_encode_signature(m.q_sig)      # as the enclave encodes it
         if self.att is None:
             return ERR_ATT_PROT_INVALID, b""
         if op in (0x02, 0x04):
@@ -1592,7 +1663,7 @@ def concretise(b, rng, profile=None, grind=False):
     else:
         case["s_pagesize"] = pagesize_for(SG_LEN, cfg["sp"], rng)
         case["e_pages"] = cfg["ep"]
-        case["e_pagesize"] = rng.choice((80, 128, 200, 254, 255, rng.randint(60, 255)))
+        case["e_pagesize"] = rng.choice((FW_PAGESIZE, FW_PAGESIZE, 80, 128, 200, 254, 255, rng.randint(60, 255)))
         case["no_unlock"] = rng.random() < 0.5
     site, idx = a["site"], a["idx"]
     alt = {"site": site}
